@@ -455,7 +455,7 @@ class FuncAnalysis:
             td = self._def_term(d, depth)
             if d.kind == "assign" and d.path == () and d.node is not None:
                 td = self._apply_stores(td, name, d, at, depth)
-                if isinstance(d.payload, (ast.List, ast.ListComp)) or (isinstance(d.payload, ast.Call) and isinstance(d.payload.func, ast.Name) and d.payload.func.id == "list"):
+                if isinstance(d.payload, (ast.List, ast.ListComp)) or (isinstance(d.payload, ast.Call) and isinstance(d.payload.func, ast.Name) and d.payload.func.id in ("list", "bytearray")):
                     td = self._apply_growth(td, name, d, at, depth)
             alts.append(td)
         t = phi(alts)
@@ -469,6 +469,8 @@ class FuncAnalysis:
         for n in self._own_nodes():
             if isinstance(n, ast.Call) and isinstance(n.func, ast.Attribute) and isinstance(n.func.value, ast.Name) and n.func.value.id == name:
                 if n.func.attr == "append" and len(n.args) == 1:
+                    sites.append(n)
+                elif n.func.attr == "extend" and len(n.args) == 1 and not any(isinstance(a, (ast.For, ast.While)) for a in ancestors(n)):
                     sites.append(n)
                 elif n.func.attr in ("extend", "insert", "remove", "pop", "clear", "sort", "reverse"):
                     return base
@@ -494,7 +496,10 @@ class FuncAnalysis:
                 continue
             if loop is None:
                 if cfg.dominates(d.node, cn) and self._on_all_paths(d.node, cn, at):
-                    parts.append(("list", (self._t(c.args[0], cn, {}, depth),)))
+                    if c.func.attr == "extend":
+                        parts.append(self._t(c.args[0], cn, {}, depth))
+                    else:
+                        parts.append(("list", (self._t(c.args[0], cn, {}, depth),)))
                     continue
                 return base
             ln = cfg.node_of(loop)
@@ -1104,3 +1109,18 @@ def walk_all(t: Any):
     for s in subterms(t):
         if isinstance(s, tuple) and s and isinstance(s[0], str):
             yield s
+
+
+def dynamic_dispatch(t: Term) -> Optional[Term]:
+    """a sub-term that calls the result of getattr(obj, <computed name>): which method runs is decided by data
+    (a table, a string built at run time) that a shape-based rule cannot read.  Checks that compare what a
+    function builds against a law refuse to judge such a function rather than report a difference."""
+    for sub in walk_all(t):
+        if isinstance(sub, tuple) and sub and sub[0] == "app" and isinstance(sub[1], tuple) and sub[1] and sub[1][0] == "app":
+            f = strip_sites(sub[1])
+            if f[1] == ("global", "builtins.getattr") and len(f[2]) >= 2 and f[2][1][0] != "const":
+                nm = f[2][1]
+                if nm[0] == "fstr" and nm[1] and nm[1][0][0] == "const" and str(nm[1][0][1]).endswith("_"):
+                    continue  # the visitor protocol itself: getattr(self, f"call_{name}") / f"visit_{cls}"
+                return sub
+    return None
